@@ -44,6 +44,9 @@ def gen(rng, scenario, tier):
     bs, drifts = workload.batches(rng, rng.randint(6, 23), d, 8, 60, drift_rate=rng.choice([0.15, 0.3]),
                                   nd=rng.choice([3, 4]), integer=rng.random() < 0.1)
     ev = [["ref", bs[0], np_seed(rng)]]
+    int_ref = rng.random() < 0.15
+    if int_ref:
+        ev[0][1] = [[float(round(v)) for v in row] for row in bs[0]]
     for b in bs[1:]:
         c = rng.random()
         if c < 0.07:
@@ -52,7 +55,7 @@ def gen(rng, scenario, tier):
             ev.append(["same", None, np_seed(rng)])
         else:
             ev.append(["u", b, np_seed(rng)])
-    return {"cfg": cfg, "events": ev, "drift_positions": drifts}
+    return {"cfg": cfg, "events": ev, "drift_positions": drifts, "int_ref": int_ref}
 
 
 def build(cfg):
@@ -109,7 +112,11 @@ def _run(case, ctx, rec):
         if op == "ref":
             X = np.array(rows, dtype=float)
             np.random.seed(seed)
-            ctx.call("C07:set_reference", det.set_reference, X.copy())
+            # an integer-valued reference may arrive as an integer-typed array (the batches that follow are real-valued)
+            given = X.astype("int64") if (case.get("int_ref") and i == 0) else X.copy()
+            ctx.call("C07:set_reference", det.set_reference, given)
+            if case.get("int_ref") and i == 0:
+                ctx.probe("integer_typed_reference")
             if i > 0:
                 ctx.fault("explicit_set_reference")
             spec.start_epoch(X)
